@@ -77,8 +77,9 @@ type c19GenOut struct {
 	CancelBefore  bool        `json:"cancel_before"`            // the harness began cancelling before it saw the call return
 	ReaderFailed  bool        `json:"reader_failed"`
 	ReaderServed  int64       `json:"reader_served"`
-	LibBase       int         `json:"lib_base"`  // library goroutines before the call (after settling)
-	LibAfter      int         `json:"lib_after"` // ... after the call and the settle loop
+	LibBase       int         `json:"lib_base"`   // library goroutines before the call (after settling)
+	LibAfter      int         `json:"lib_after"`  // ... after the call and the settle loop
+	LateReads     int         `json:"late_reads"` // reads of the entropy source after the call had returned
 	ElapsedMs     float64     `json:"elapsed_ms"`
 	AfterCancelMs float64     `json:"after_cancel_ms,omitempty"` // return time minus cancellation time (during)
 	Dump          string      `json:"dump,omitempty"`            // goroutines of the library (hang / leak)
@@ -91,11 +92,13 @@ var errC19Entropy = errors.New("c19: entropy source exhausted")
 
 // c19Reader is a goroutine-safe deterministic byte source that can fail after a number of bytes.
 type c19Reader struct {
-	mu     sync.Mutex
-	r      *rand.Rand
-	left   int64 // < 0: unlimited
-	failed bool
-	served int64
+	mu       sync.Mutex
+	r        *rand.Rand
+	left     int64 // < 0: unlimited
+	failed   bool
+	served   int64
+	returned bool // the call this reader was handed to has returned
+	late     int  // Read calls after that
 }
 
 func newC19Reader(seed int64, failAfter int64) *c19Reader {
@@ -105,6 +108,9 @@ func newC19Reader(seed int64, failAfter int64) *c19Reader {
 func (r *c19Reader) Read(p []byte) (int, error) {
 	r.mu.Lock()
 	defer r.mu.Unlock()
+	if r.returned {
+		r.late++
+	}
 	if r.left < 0 {
 		r.r.Read(p)
 		r.served += int64(len(p))
@@ -132,6 +138,19 @@ func (r *c19Reader) state() (failed bool, served int64) {
 	r.mu.Lock()
 	defer r.mu.Unlock()
 	return r.failed, r.served
+}
+
+// markReturned is called by the goroutine that made the call, immediately after the call returned.
+func (r *c19Reader) markReturned() {
+	r.mu.Lock()
+	r.returned = true
+	r.mu.Unlock()
+}
+
+func (r *c19Reader) lateReads() int {
+	r.mu.Lock()
+	defer r.mu.Unlock()
+	return r.late
 }
 
 // ------------------------------------------------------------------ goroutine inspection
@@ -331,6 +350,7 @@ func c19RunGen(cs c19GenCase) (out c19GenOut) {
 			}
 		}()
 		r.primes, r.err = common.GetRandomSafePrimesConcurrent(ctx, cs.Bits, cs.N, cs.C, rd)
+		rd.markReturned()
 		r.cancelled = cancelStarted.Load()
 		r.at = time.Now()
 		done <- r
@@ -373,6 +393,7 @@ func c19RunGen(cs c19GenCase) (out c19GenOut) {
 		out.Dump = c19DumpText(after, 4000)
 	}
 	out.ReaderFailed, out.ReaderServed = rd.state()
+	out.LateReads = rd.lateReads()
 	switch {
 	case r.panicked != "":
 		out.Outcome, out.Panic = "panic", r.panicked
@@ -472,6 +493,9 @@ func c19JudgeGen(cs c19GenCase, o c19GenOut) (vs []c19Viol) {
 			add(fn+":spurious-error:"+size, fmt.Sprintf("%s returned the error %q although its context was live and its entropy source worked", desc, o.ErrText))
 		}
 	}
+	if o.LateReads > 0 {
+		add(fn+":goroutine-running-after-return:"+size, fmt.Sprintf("%s returned (%s) while a producer goroutine was still running: the entropy source was read %d time(s) after the return", desc, o.Outcome, o.LateReads))
+	}
 	if o.LibAfter > o.LibBase {
 		add(fn+":goroutine-leak:"+size, fmt.Sprintf("%s returned (%s) and left %d producer goroutine(s) behind (15 s settle loop):\n%s", desc, o.Outcome, o.LibAfter-o.LibBase, o.Dump))
 	}
@@ -496,7 +520,7 @@ func c19TraceLines(cs c19GenCase, o c19GenOut, maxC int) []string {
 		lines = append(lines, j(map[string]any{"ev": "Cancel"}))
 	}
 	lines = append(lines, j(map[string]any{"ev": "Return", "outcome": o.Outcome, "count": o.Count}))
-	lines = append(lines, j(map[string]any{"ev": "Settled", "lib_goroutines": o.LibAfter - o.LibBase, "reader_failed": o.ReaderFailed}))
+	lines = append(lines, j(map[string]any{"ev": "Settled", "lib_goroutines": o.LibAfter - o.LibBase, "late_reads": o.LateReads, "reader_failed": o.ReaderFailed}))
 	return lines
 }
 
